@@ -1,5 +1,9 @@
 """`prot.*` op lines on the real aioquic objects (_crypto C helpers,
-CryptoContext, get_retry_integrity_tag).  Arguments after `|` are the
+CryptoContext, get_retry_integrity_tag).  The objects are LIVE: one
+HeaderProtection per (cipher, key), one CryptoContext per key set, kept for the
+life of the adapter exactly as a connection keeps them, so that state carried
+inside the C objects between calls (buffers, mask, cipher contexts) is part of
+what is compared against the stateless model.  Arguments after `|` are the
 independent primitive's answers for the Lean model and are ignored here."""
 
 
@@ -23,6 +27,7 @@ class ProtImpl:
         self.qp = qp
         self.Buffer = Buffer
         self.CipherSuite = CipherSuite
+        self.live = {}
 
     def step(self, line):
         t = line.split()
@@ -37,7 +42,19 @@ class ProtImpl:
         except Exception as e:  # noqa
             return "err " + type(e).__name__
 
+    def _hp(self, name, key):
+        k = ("hp", name, key)
+        if k not in self.live:
+            self.live[k] = self.c.HeaderProtection(name.encode(), key)
+        return self.live[k]
+
     def _ctx(self, suite, key, iv, hp, key_phase=0):
+        k = ("ctx", suite, key, iv, hp, key_phase)
+        if k not in self.live:
+            self.live[k] = self._new_ctx(suite, key, iv, hp, key_phase)
+        return self.live[k]
+
+    def _new_ctx(self, suite, key, iv, hp, key_phase=0):
         hp_name, aead_name = self.qc.CIPHER_SUITES[self.CipherSuite(int(suite))]
         ctx = self.qc.CryptoContext(key_phase=key_phase)
         ctx.aead = self.c.AEAD(aead_name, key, iv)
@@ -48,18 +65,22 @@ class ProtImpl:
     def _step(self, t):
         op = t[0]
         if op == "prot.apply":
-            hp = self.c.HeaderProtection(t[1].encode(), unhx(t[2]))
+            hp = self._hp(t[1], unhx(t[2]))
             return "ok " + hx(hp.apply(unhx(t[3]), unhx(t[4])))
         if op == "prot.remove":
-            hp = self.c.HeaderProtection(t[1].encode(), unhx(t[2]))
+            hp = self._hp(t[1], unhx(t[2]))
             h, n = hp.remove(unhx(t[3]), int(t[4]))
             return f"ok {hx(h)} {n}"
         if op == "prot.encrypt":
             ctx = self._ctx(t[1], unhx(t[2]), unhx(t[3]), unhx(t[4]))
             return "ok " + hx(ctx.encrypt_packet(unhx(t[5]), unhx(t[6]), int(t[7])))
         if op == "prot.decrypt":
-            ctx = self.qc.CryptoContext(key_phase=int(t[4]))
-            ctx.setup(cipher_suite=self.CipherSuite(int(t[1])), secret=unhx(t[3]), version=int(t[2]))
+            k = ("dec", t[1], t[2], t[3], t[4])
+            if k not in self.live:
+                ctx = self.qc.CryptoContext(key_phase=int(t[4]))
+                ctx.setup(cipher_suite=self.CipherSuite(int(t[1])), secret=unhx(t[3]), version=int(t[2]))
+                self.live[k] = ctx
+            ctx = self.live[k]
             h, p, pn, upd = ctx.decrypt_packet(unhx(t[5]), int(t[6]), int(t[7]))
             return f"ok hdr={hx(h)} payload={hx(p)} pn={pn} upd={1 if upd else 0}"
         if op == "prot.decrypt.nokey":
